@@ -5,7 +5,8 @@ from .. import shared as S
 from ..facts import Callee
 from ..paths import enumerate_paths
 from .. import placement as PL
-from ..shapes import coverage, root, Src, SELF, TRANSPARENT
+from ..shapes import root, TRANSPARENT
+from ..semcov import coverage, Src, SELF
 
 PROP = "C16"
 EXPLANATION = (
